@@ -633,7 +633,7 @@ def fix_reimported_names(source: str) -> str:
     for module, aliases in module_from_imports.items():
         yield None, ast.ImportFrom(
             module=module,
-            names=sorted(aliases, key=lambda alias: alias.name),
+            names=sorted(aliases, key=lambda alias: (alias.name, alias.asname or "")),
             level=0,
             lineno=import_insert_lineno,
         ), transaction
